@@ -22,6 +22,7 @@ import (
 	"verif/harness/internal/ast"
 	"verif/harness/internal/gen"
 	"verif/harness/internal/port"
+	"verif/harness/internal/stats"
 	"verif/harness/internal/val"
 )
 
@@ -314,7 +315,15 @@ func genStateful() *rapid.Generator[*ast.Node] {
 	name := rapid.Custom(func(t *rapid.T) *ast.Node { return ast.NameN(rapid.SampledFrom(gen.Names).Draw(t, "n")) })
 	ctxFns := []string{"string", "length", "uppercase", "lowercase", "trim", "number", "abs", "boolean", "keys", "type", "spread"}
 	return rapid.Custom(func(t *rapid.T) *ast.Node {
-		switch rapid.IntRange(0, 23).Draw(t, "shape") {
+		switch rapid.IntRange(0, 25).Draw(t, "shape") {
+		case 22: // an error raised deep inside recursive user-defined calls (whatever it leaves behind must not add up)
+			depth := float64(rapid.IntRange(30, 90).Draw(t, "errDepth"))
+			body := ast.N(ast.Cond, ast.BinN("=", ast.VarN("n"), ast.NumN(0)), ast.BinN("+", ast.VarN("n"), ast.StrN("a")), ast.CallE(ast.VarN("f"), ast.BinN("-", ast.VarN("n"), ast.NumN(1))))
+			return ast.BlockN(&ast.Node{K: ast.Assign, S: "f", C: []*ast.Node{ast.LambdaN([]string{"n"}, "", body)}}, ast.CallE(ast.VarN("f"), ast.NumN(depth)))
+		case 23: // a successful recursion of moderate depth
+			depth := float64(rapid.IntRange(20, 60).Draw(t, "okDepth"))
+			body := ast.N(ast.Cond, ast.BinN("=", ast.VarN("n"), ast.NumN(0)), ast.NumN(0), ast.BinN("+", ast.VarN("n"), ast.CallE(ast.VarN("g"), ast.BinN("-", ast.VarN("n"), ast.NumN(1)))))
+			return ast.BlockN(&ast.Node{K: ast.Assign, S: "g", C: []*ast.Node{ast.LambdaN([]string{"n"}, "", body)}}, ast.CallE(ast.VarN("g"), ast.NumN(depth)))
 		case 18: // the same picture with and without decimal-format options (possibly in different expressions of the pool)
 			pic := rapid.SampledFrom([]string{"0.000", "#,##0.00", "0,0.0"}).Draw(t, "pic")
 			args := []*ast.Node{ast.NumN(rapid.SampledFrom([]float64{1234.25, 0.5, 1234567.891}).Draw(t, "fx")), ast.StrN(pic)}
@@ -482,7 +491,9 @@ func TestC05_Histories(t *testing.T) {
 			"print": do("print"),
 			"rereg": do("rereg"),
 		})
-		if rapid.IntRange(0, 9).Draw(rt, "freshProcess") == 0 {
+		// a process start costs far more than a history: every 10th history in the
+		// quick tier, every 60th in the thorough tier (which runs 20 times as many)
+		if rapid.IntRange(0, stats.Scale(9, 59)).Draw(rt, "freshProcess") == 0 {
 			c.Steps = append([]c05Step{}, m.c.Steps...)
 			c.FreshProc = []int{rapid.IntRange(0, ne-1).Draw(rt, "fpExpr"), rapid.IntRange(0, nd-1).Draw(rt, "fpDoc")}
 			rec.Class("compared_with_fresh_process")
